@@ -804,6 +804,8 @@ var aliasTables = map[*types.Info]map[types.Object]ast.Expr{}
 func buildAliasTable(info *types.Info, files []*ast.File) {
 	defs := map[types.Object][]ast.Expr{}
 	bad := map[types.Object]bool{}
+	anyDefs := map[types.Object][]ast.Expr{}
+	multi := map[types.Object]bool{}
 	note := func(l ast.Expr, r ast.Expr, define bool) {
 		id, ok := l.(*ast.Ident)
 		if !ok {
@@ -813,6 +815,11 @@ func buildAliasTable(info *types.Info, files []*ast.File) {
 		v, ok := o.(*types.Var)
 		if !ok || v.IsField() || v.Parent() == nil || v.Parent() == v.Pkg().Scope() {
 			return
+		}
+		if r == nil {
+			multi[o] = true
+		} else {
+			anyDefs[o] = append(anyDefs[o], r)
 		}
 		if r == nil || !isAccessPath(info, r) {
 			bad[o] = true
@@ -854,6 +861,7 @@ func buildAliasTable(info *types.Info, files []*ast.File) {
 				if s.Op == token.AND {
 					if id, ok := unparen(s.X).(*ast.Ident); ok {
 						bad[info.ObjectOf(id)] = true
+						multi[info.ObjectOf(id)] = true
 					}
 				}
 			}
@@ -867,6 +875,24 @@ func buildAliasTable(info *types.Info, files []*ast.File) {
 		}
 	}
 	aliasTables[info] = tbl
+	// every single-definition local, whatever its defining expression
+	sd := map[types.Object]ast.Expr{}
+	for o, ds := range anyDefs {
+		if len(ds) == 1 && !multi[o] {
+			sd[o] = ds[0]
+		}
+	}
+	singleDefTables[info] = sd
+}
+
+var singleDefTables = map[*types.Info]map[types.Object]ast.Expr{}
+
+// singleDefOf returns the defining expression of a local variable that is assigned exactly once.
+func singleDefOf(info *types.Info, o types.Object) ast.Expr {
+	if t := singleDefTables[info]; t != nil {
+		return t[o]
+	}
+	return nil
 }
 
 // isAccessPath: identifier/selector chain rooted at a variable, with at least one field selection
